@@ -97,7 +97,15 @@ impl Import {
         let src: &str = &user_data.get_source_file_name();
         let path = Path::new(src);
         let attempted_path = Path::new(str_part);
-        let path = path.parent().context("no parent")?.join(attempted_path);
+        // `./m` and `m` name the same module: `.` components are dropped so that both spellings give one path
+        // (and with it one compiled file and one run-time instance)
+        let path = path
+            .parent()
+            .context("no parent")?
+            .join(attempted_path)
+            .components()
+            .filter(|component| !matches!(component, std::path::Component::CurDir))
+            .collect();
         Ok(path)
     }
 }
